@@ -41,7 +41,7 @@ def cases(tier, seed):
             scn["pattern"] = [["solve"], ["solve"]] + ([["iter", 2], ["solve"]] if rng.random() < 0.5 else [])
         out.append(scn)
     # the global search goes on after a local refinement has improved the optimum
-    nr = 120 if tier == "quick" else 1500
+    nr = 120 if tier == "quick" else 4000
     for i in range(nr):
         rng = scenario.rng_for(seed, "C04R", i)
         scn = scenario.gen_scenario(rng, fams=["sines", "wells", "cones", "rcos", "needle", "outside", "linear", "scaled"], max_iters=120,
